@@ -22,7 +22,7 @@ open Rie.Sys
     (reservation, flights, timers, queue, orchestrator, flows, …) is unchanged. -/
 theorem C10_second_refused_inert (s : State) (c size : Nat) (h : String)
     (hi : s.inited = true) (hr : s.resv.isSome = true) :
-    applyOp s (.invoke c size h) = s.emit s!"caller{c} done err=AlreadyReserved body=empty" := by
+    applyOp s (.invoke c size h) = s.emitCaller c "AlreadyReserved" "empty" := by
   simp [applyOp, startServerInit, hi, hr]
 
 /-- … hence nothing the in-flight invocation or later ones depend on changes. -/
@@ -53,7 +53,7 @@ theorem C10_refusal_no_crash (s : State) (c size : Nat) (h : String)
 -- non-vacuity: a second caller during the first one's init is refused, the first is untouched
 example :
     let s1 := step 0 {} (.invoke 0 5 "h")
-    s1.resv.isSome = true ∧ (step 0 s1 (.invoke 1 5 "h")).out = ["caller1 done err=AlreadyReserved body=empty"] := by
+    s1.resv.isSome = true ∧ (step 0 s1 (.invoke 1 5 "h")).outs = ["caller1 done err=AlreadyReserved body=empty"] := by
   decide
 
 end Rie.Props.C10
